@@ -571,6 +571,41 @@ def gen_imm(rnd, full=False):
                     t = "%s %s %s, %s" % (mn, KW[w], M, txt)
                     return t, t, [mem_exp(w, base, index, scale, disp), I(v)]
                 emit("imm_mi", mn, "mi", w, kindm, b, base=base, index=index)
+    # three-operand forms whose MIDDLE (or first) operand is memory: the immediate's width follows the register, not the address
+    memsel = [("rbx", None, None, None), ("rbx", "rcx", 2, 0x10), (None, "rbx", 4, 0x10), (None, "r9d", 8, -0x80), ("r13", "r12", 1, 0x11223344), (None, None, None, 0x1000)]
+    for w in (16, 32, 64):
+        for reg in (regsets[w][1], regsets[w][-1], BYW[w][5], BYW[w][12]):
+            for (base, index, scale, disp) in memsel:
+                M = render_mem(base, index, scale, "si" if (index and not base) else "is", disp)
+                def b(txt, v, reg=reg, w=w, M=M, base=base, index=index, scale=scale, disp=disp):
+                    t = "imul %s, %s, %s" % (reg, M, txt)
+                    n = "imul %s, %s %s, %s" % (reg, KW[w], M, txt)
+                    return t, n, [R(reg), mem_exp(w, base, index, scale, disp), I(v)]
+                emit("imm_imul_rmi", "imul", "rmi", w, "sx32" if w == 64 else "w", b, reg=reg, base=base, index=index)
+    vals = [v for v in vals_all if 0 <= v <= 255][:: 1]
+    for w in (32, 64):
+        for reg in (regsets[w][1], regsets[w][-1]):
+            for (base, index, scale, disp) in memsel:
+                M = render_mem(base, index, scale, "si" if (index and not base) else "is", disp)
+                def b(txt, v, reg=reg, w=w, M=M, base=base, index=index, scale=scale, disp=disp):
+                    t = "rorx %s, %s, %s" % (reg, M, txt)
+                    n = "rorx %s, %s %s, %s" % (reg, KW[w], M, txt)
+                    return t, n, [R(reg), mem_exp(w, base, index, scale, disp), I(v)]
+                emit("imm_rorx_rmi", "rorx", "rmi", w, "imm8u", b, reg=reg, base=base, index=index)
+    for (base, index, scale, disp) in memsel:
+        M = render_mem(base, index, scale, "si" if (index and not base) else "is", disp)
+        for mn in AVX_IMM:
+            def b(txt, v, mn=mn, M=M, base=base, index=index, scale=scale, disp=disp):
+                t = "%s ymm1, ymm9, %s, %s" % (mn, M, txt)
+                return t, t, [R("ymm1"), R("ymm9"), mem_exp(256, base, index, scale, disp), I(v)]
+            emit("imm_vperm_m", mn, "yymi", 256, "imm8u", b, base=base, index=index)
+        for mn in ("shld", "shrd"):
+            for w in (16, 32, 64):
+                reg = regsets[w][-1]
+                def b(txt, v, mn=mn, reg=reg, w=w, M=M, base=base, index=index, scale=scale, disp=disp):
+                    t = "%s %s %s, %s, %s" % (mn, KW[w], M, reg, txt)
+                    return t, t, [mem_exp(w, base, index, scale, disp), R(reg), I(v)]
+                emit("imm_shxd_mri", mn, "mri", w, "imm8u", b, reg=reg, base=base, index=index)
     vals = vals_all
     for w in (16, 32, 64):
         for reg in regsets[w][:2] + [regsets[w][-1]]:
